@@ -6,7 +6,7 @@ CONSTANTS
   Transports = {"ip", "coap", "ble"}
   BleTransports = {"ble"}
   Timeouts = {250, 1000, 5000}
-  PModes = {"none", "cached", "nocache"}
+  PModes = {"none", "cached", "nocache", "cached-after", "nocache-after", "cached-shut", "nocache-shut", "cached-after-shut", "nocache-after-shut"}
   Timed = FALSE
   Register = TRUE
   DoneGuard = TRUE
